@@ -251,6 +251,23 @@ def mapping(top: int, lo: int, ro: int, pt: int, st: int) -> bool:
         (part == {} or part == {"Z": {}})
 
 
+def mapping_entries(order: int, zkind: int, n: int) -> bool:
+    """
+    an explicitly empty partitioning entry (None or {}) for one output next to non-empty entries for others means
+    'no partitioning' for that output, wherever it is listed
+    pre: 0 <= order <= 2 and 0 <= zkind <= 1 and 1 <= n <= 2
+    post: _
+    """
+    order, zkind, n = conc(order, 3), conc(zkind, 2), conc(n, 3)
+    full = [("T%d" % i, {"M": ["uniform_shape(4)"], "K": ["uniform_shape(2)", "uniform_shape(1)"]}) for i in range(n)]
+    empty = ("Z", None if zkind == 0 else {})
+    items = full[:]
+    items.insert([0, len(full), len(full) // 2][order], empty)
+    mp = Mapping({"mapping": {"partitioning": dict(items)}})
+    part = mp.get_partitioning()
+    return part["Z"] == {} and all(len(part["T%d" % i]) == 2 for i in range(n)) and list(part) == [k for k, _ in items]
+
+
 def mapping_twin(top: int, lo: int, ro: int, pt: int, st: int) -> bool:
     """
     pre: 0 <= top <= 3 and 0 <= lo <= 2 and 0 <= ro <= 2 and 0 <= pt <= 3 and 0 <= st <= 2
